@@ -138,6 +138,13 @@ def correspond(ctx):
     groups.append((("mf", ("and", ("fwd", 0), ("lit", "q")), ("or", ("and", ("fwd", 0), ("lit", "x")), W)), {0: ("mf", ("and", Wc, ("lit", "x")), W)},
                    ["ab x"], MODES, [("parse", False)]))
     groups.append((("fwd", 0), {0: ("and", Wc, ("lit", "x"))}, ["ab y"], MODES, [("parse", False)]))
+    # a Forward whose body matches without actions but is rejected by a condition, tried again (with actions, same place) by the
+    # next alternatives: what the failed action pass leaves in the memo must not turn the later attempts into successes
+    Fc = {0: ("mf", Wc, ("and", ("lit", "("), ("fwd", 0), ("lit", ")")))}
+    groups.append((("mf", ("group", ("and", ("fwd", 0), ("lit", ":"), ("fwd", 0))), ("group", ("and", ("fwd", 0), ("lit", "-"), ("fwd", 0))), ("group", ("fwd", 0))),
+                   Fc, ["ab-b", "ab", "(a:b, ab-a)", "aba-abb", "aba:ab", "(ab)"], MODES, [("parse", False), ("parse", True)]))
+    groups.append((("and", ("opt", ("and", ("fwd", 0), ("lit", ":"))), ("star", ("and", ("fwd", 0), ("opt", ("lit", ","))))),
+                   Fc, ["ab:ab", "ab,aba", "aba:ab,ab"], MODES, [("parse", False)]))
     stats = {}
     recs = corr.run_groups(groups, stats=stats)
     fh = {}
